@@ -18,7 +18,7 @@ for sid in sorted(os.listdir(os.path.join(HERE, "seeded"))):
     m = json.load(open(p))
     by = m.get("detected_by", [])
     replayed = "yes" if any("no-failing-input-found" not in b for b in by) else "no (obligation only)"
-    suite = "492/492 stable tests pass" if m.get("suite_ok") else ("pending" if "suite_ok" not in m else f"missing: {m.get('suite_stable_pass_missing')}")
+    suite = "492/492 stable tests pass" if m.get("suite_ok") else (("demo fails with / passes without the change; full suite not run here" if m.get("confirmed") else "pending") if "suite_ok" not in m else f"missing: {m.get('suite_stable_pass_missing')}")
     if not m.get("confirmed") and "suite_ok" in m:
         suite += " (demo rc %s/%s)" % (m.get("demo_with_change_rc"), m.get("demo_without_change_rc"))
     br = (m.get("breaks") or "").replace("|", "/")[:230]
@@ -35,6 +35,7 @@ if os.path.exists(rf):
     head = head.replace("@@REFAC_TABLE@@", "\n".join(rrows))
 else:
     head = head.replace("@@REFAC_TABLE@@", "(results pending)")
+head = head.replace("@@ROUND4@@", "")
 head = head.replace("@@STATUS_TABLE@@", status).replace("@@SEED_TABLE@@", "\n".join(rows))
 old = open(os.path.join(HERE, "DESIGN.md")).read()
 i = old.index("## 1. Why contracts + a deductive verifier reach what the tests cannot")
